@@ -1334,13 +1334,16 @@ def make_chooser(plan, n):
 
 def run_plan(plan, reference=True, watchdog=40.0):
     from . import reference as refmod
-    seams.KNOB_SHIFT = int(plan.get("knobs", {}).get("const_shift", 0))
+    want_shift = int(plan.get("knobs", {}).get("const_shift", 0))
+    seams.KNOB_SHIFT = seams.effective_shift(want_shift)
     L = seams.fresh_library(patch_stream=True)
     torch = L.torch
     torch.set_default_dtype(torch.float32)
     torch.set_grad_enabled(True)
     np_err = np.geterr()
     w = World(plan)
+    if want_shift and not seams.KNOB_SHIFT:
+        w.probe("knob_shift_vetoed")
     w.L = L
     programs = plan["programs"]
     n = len(programs)
